@@ -393,11 +393,22 @@ type Payload struct {
 	Sections   []Section
 	End        uint64 // bytes consumed (payload-relative)
 	NullPadded bool   // stopped at a zero-length section (only if zeroLenAsEOF)
+	HeaderOK   bool   // header body decoded strictly, version 1, roots present
 }
 
 // DecodePayload strictly scans a CARv1 payload (the whole of p must be consumed unless a
 // zero-length section is met and zeroLenAsEOF is set). Block hashes are verified when verify.
 func DecodePayload(p []byte, zeroLenAsEOF, verify bool) (*Payload, error) {
+	return decodePayload(p, zeroLenAsEOF, verify, false)
+}
+
+// ScanPayload is the lenient variant: the header is only skipped by its length prefix
+// (its body is decoded when possible, HeaderOK tells), the sections are scanned strictly.
+func ScanPayload(p []byte, zeroLenAsEOF, verify bool) (*Payload, error) {
+	return decodePayload(p, zeroLenAsEOF, verify, true)
+}
+
+func decodePayload(p []byte, zeroLenAsEOF, verify, lenientHeader bool) (*Payload, error) {
 	out := &Payload{}
 	hl, n, err := Uvarint(p)
 	if err != nil {
@@ -407,15 +418,18 @@ func DecodePayload(p []byte, zeroLenAsEOF, verify bool) (*Payload, error) {
 		return nil, errors.New("refcar: header truncated")
 	}
 	h, err := DecodeHeaderBody(p[n : n+int(hl)])
-	if err != nil {
-		return nil, err
+	if !lenientHeader {
+		if err != nil {
+			return nil, err
+		}
+		if h.Version != 1 {
+			return nil, fmt.Errorf("refcar: payload header version %d", h.Version)
+		}
+		if !h.HasRoots {
+			return nil, errors.New("refcar: header without roots")
+		}
 	}
-	if h.Version != 1 {
-		return nil, fmt.Errorf("refcar: payload header version %d", h.Version)
-	}
-	if !h.HasRoots {
-		return nil, errors.New("refcar: header without roots")
-	}
+	out.HeaderOK = err == nil && h.Version == 1 && h.HasRoots
 	out.Header = h
 	pos := uint64(n) + hl
 	out.HeaderLen = pos
